@@ -6,10 +6,14 @@ One JSON object per input line: {"op": "...", ...}; one JSON line per answer:
 -/
 import DriverLib.Basic
 import DriverLib.C01
+import DriverLib.C17
+import DriverLib.C18
 open Lean Drv
 
 def handlers : List (String → Json → Option (R Json)) := [
   Drv.C01.handle,
+  Drv.C17.handle,
+  Drv.C18.handle,
   fun _ _ => none]
 
 def dispatch (line : String) : Json :=
